@@ -58,6 +58,7 @@ impl Read for ByteStream {
 
 impl From<ByteRegion> for ByteStream {
     fn from(bregion: ByteRegion) -> Self {
-        Self::new_from_parts(bregion.source, bregion.region, Offset::zero())
+        let begin = bregion.region.begin();
+        Self::new_from_parts(bregion.source, bregion.region, begin)
     }
 }
